@@ -171,7 +171,11 @@ def _pchip_derivatives(
     h_l, h_r = h[:-1], h[1:]
 
     mask_same_sign = (delta_l * delta_r) > 0  # excludes zeros + sign changes
-    dh = _weighted_harmonic_mean(delta_l, delta_r, h_l, h_r)
+    # The harmonic mean divides by the secants: evaluate it on harmless values where
+    # it is not used, otherwise a zero secant gives 0 * inf = nan in the backward pass.
+    safe_delta_l = torch.where(mask_same_sign, delta_l, torch.ones_like(delta_l))
+    safe_delta_r = torch.where(mask_same_sign, delta_r, torch.ones_like(delta_r))
+    dh = _weighted_harmonic_mean(safe_delta_l, safe_delta_r, h_l, h_r)
     d[1:-1] = torch.where(mask_same_sign, dh, torch.zeros_like(dh))
 
     # Endpoints (one-sided + limiter)
